@@ -43,7 +43,7 @@ func (f wfilter) match(d doc) bool {
 	case 1:
 		return d.k == f.v
 	case 2:
-		return d.n > f.v
+		return d.nGreater(f.v)
 	case 3:
 		return d.o != 0 // present, with null or with a value
 	case 4:
@@ -68,10 +68,41 @@ func (f wfilter) String() string {
 
 // o: 0 = field "o" absent, 1 = present with an explicit null, 2 = present with the value "x"
 // (a present null must count as existing for $exists – seeded change c13d broke exactly that)
-type doc struct{ id, k, n, o int }
+// nk: 0 = "n" holds the int n, 1 = "n" holds the string "s", 2 = "n" absent. A range operator orders values of
+// different kinds by their kind (a string is above every int, an absent field below every operand): a document
+// whose "n" is of another kind than the watcher's operand is matched like any other (seeded change c13j made
+// that comparison an error, which the filter check at Watch cannot foresee – the mutation took effect, the
+// writer was told it failed and the later watchers were not notified).
+type doc struct{ id, k, n, o, nk int }
+
+func (d doc) nGreater(x int) bool {
+	switch d.nk {
+	case 1:
+		return true
+	case 2:
+		return false
+	}
+	return d.n > x
+}
+
+func drawNK(rng *lib.RNG) int {
+	switch {
+	case rng.Chance(1, 5):
+		return 1
+	case rng.Chance(1, 10):
+		return 2
+	}
+	return 0
+}
 
 func (d doc) m() map[string]any {
 	m := map[string]any{"id": d.id, "k": d.k, "n": d.n}
+	switch d.nk {
+	case 1:
+		m["n"] = "s"
+	case 2:
+		delete(m, "n")
+	}
 	switch d.o {
 	case 1:
 		m["o"] = nil
@@ -238,7 +269,7 @@ func oneCase(c *lib.Ctx, rng *lib.RNG, sc *lib.Script, fails *[]lib.OracleFail) 
 			r.op(fmt.Sprintf("watch %d", w.id), "ok")
 			c.Hit("op-watch-" + f.String()[:1])
 		case 1: // insert one (maybe duplicate id)
-			d := doc{id: rng.Intn(6), k: rng.Intn(3), n: rng.Intn(4), o: rng.Intn(3)}
+			d := doc{id: rng.Intn(6), k: rng.Intn(3), n: rng.Intn(4), o: rng.Intn(3), nk: drawNK(rng)}
 			err := r.st.Insert(wctx(), []any{d.m()})
 			_, dup := r.docs[d.id]
 			if (err != nil) != dup {
@@ -258,7 +289,7 @@ func oneCase(c *lib.Ctx, rng *lib.RNG, sc *lib.Script, fails *[]lib.OracleFail) 
 			var batch []any
 			var ds []doc
 			for j := 0; j < n; j++ {
-				d := doc{id: rng.Intn(7), k: rng.Intn(3), n: rng.Intn(4), o: rng.Intn(3)}
+				d := doc{id: rng.Intn(7), k: rng.Intn(3), n: rng.Intn(4), o: rng.Intn(3), nk: drawNK(rng)}
 				ds = append(ds, d)
 				batch = append(batch, d.m())
 			}
@@ -341,7 +372,7 @@ func oneCase(c *lib.Ctx, rng *lib.RNG, sc *lib.Script, fails *[]lib.OracleFail) 
 			}
 			for _, id := range ids {
 				d := r.docs[id]
-				d.n = nv
+				d.n, d.nk = nv, 0
 				switch oMode {
 				case 1:
 					d.o = 1
@@ -357,7 +388,7 @@ func oneCase(c *lib.Ctx, rng *lib.RNG, sc *lib.Script, fails *[]lib.OracleFail) 
 			c.Hit("op-update")
 		case 4: // delete by n > x
 			x := rng.Intn(4)
-			ids := r.sortedIDs(func(d doc) bool { return d.n > x })
+			ids := r.sortedIDs(func(d doc) bool { return d.nGreater(x) })
 			n, err := r.st.Delete(wctx(), map[string]any{"n": map[string]any{"$gt": x}})
 			if err != nil {
 				r.fail("delete-error", err.Error())
@@ -576,7 +607,7 @@ func stalled(c *lib.Ctx, rng *lib.RNG, fails *[]lib.OracleFail) {
 }
 
 func Run(c *lib.Ctx) {
-	c.Rule = "random histories (≤26 ops quick / ≤60 thorough) of watch (filters all | k==v | n>x | o exists | o does not exist, documents with \"o\" absent / null / set) / insert / batch insert with duplicates / update / upsert / delete / consumer read / close / cancel on a real store with ≤4 watchers, compared line by line with Uniflow.Stream.step and with the harness's own owed-event FIFOs; non-trivial = at least one watcher and ≥3 different operation kinds took effect, distinct by full trace"
+	c.Rule = "random histories (≤26 ops quick / ≤60 thorough) of watch (filters all | k==v | n>x | o exists | o does not exist, documents with \"o\" absent / null / set and \"n\" an int / a string / absent) / insert / batch insert with duplicates / update / upsert / delete / consumer read / close / cancel on a real store with ≤4 watchers, compared line by line with Uniflow.Stream.step and with the harness's own owed-event FIFOs; non-trivial = at least one watcher and ≥3 different operation kinds took effect, distinct by full trace"
 	c.Assumptions = []string{
 		"filter matching and acceptance of a document by the segment are inputs of the model (they are C10/C12's subject); the harness evaluates the five watcher filter shapes itself",
 		"after Close the Go pump may deliver or discard buffered events (select is random): the harness feeds the model exactly the events that were still delivered, the model checks they are the oldest queued ones in order",
